@@ -90,7 +90,14 @@ public:
 
     auto ret = UNSAFE_unverified();
     if (ret != nullptr) {
-      size_t bytes = sizeof(T) * count;
+      // The application indexes the returned raw pointer natively, so each
+      // element has the size of the pointee (one byte for void/function types)
+      using T_El = std::conditional_t<
+        std::is_void_v<std::remove_cv_t<T_Pointed>> ||
+          std::is_function_v<T_Pointed>,
+        char,
+        T_Pointed>;
+      size_t bytes = sizeof(T_El) * count;
       detail::check_range_doesnt_cross_app_sbx_boundary<T_Sbx>(ret, bytes);
     }
     return ret;
